@@ -428,10 +428,10 @@ section phototot
 variable (T : Tables ℝ) (Z : Int) (hZ : inI32 Z) (E : ℝ) (s : Slot) (hs : s.isFull = false)
 include hZ
 
-/-- the Kissel sub-shell tables of element `Z` are well formed, and the Q shells (no row in `EdgeEnergy_arr`, W1) carry no electrons -/
+/-- the Kissel sub-shell tables of element `Z` are well formed (`KVecOk` for each of the 31 sub-shells).  Until /repo da7215f this also had
+to ask for empty Q shells (W1: Java read the next element's edge row for shells 28..30); both languages now reject those shells. -/
 structure KAllOk (T : Tables ℝ) (Z : Int) : Prop where
   vec : ∀ k : Int, 0 ≤ k → k < 31 → KVecOk T Z k
-  q : ∀ k : Int, 28 ≤ k → k < 31 → T.Electron_Config_Kissel Z.toNat k.toNat ≤ 1.0e-6
 
 include hs
 theorem java_eq_c_CSb_Photo_Total (hk : KAllOk T Z) :
@@ -451,10 +451,6 @@ theorem java_eq_c_CSb_Photo_Total (hk : KAllOk T Z) :
     simp (disch := omega) only [wrapI_eq, jrd_flat2, rd2_ok, jbind_ok, bind_ok, jpure_eq_ok, pure_eq_ok, jbind_ret, bind_ret]
     by_cases hc : (10e-7 : ℝ) < T.Electron_Config_Kissel Z.toNat i.toNat
     · simp only [hc, ↓reduceIte]
-      have hq : i < 28 ∨ T.Electron_Config_Kissel Z.toNat i.toNat < 1.0e-6 := by
-        by_cases h28 : i < 28
-        · exact Or.inl h28
-        · exact absurd (hk.q i (by omega) h1) (not_le.mpr hc)
       have hv := hk.vec i h0 h1
       have hpos := java_pos_CSb_Photo_Partial T Z i (by unfold inI32 INT_MIN INT_MAX; omega) hi32 E
       have hcp : (0:ℝ) < T.Electron_Config_Kissel Z.toNat i.toNat := lt_trans (by norm_num) hc
@@ -470,7 +466,7 @@ theorem java_eq_c_CSb_Photo_Total (hk : KAllOk T Z) :
           have hvp := hpos v hj
           positivity
       refine ⟨?_, hinv⟩
-      rcases (java_eq_c_CSb_Photo_Partial T Z i (by unfold inI32 INT_MIN INT_MAX; omega) hi32 E Slot.null rfl hv.1 hv.2.1 hv.2.2 hq).cases
+      rcases (java_eq_c_CSb_Photo_Partial T Z i (by unfold inI32 INT_MIN INT_MAX; omega) hi32 E Slot.null rfl hv.1 hv.2.1 hv.2.2).cases
         with ⟨v, hcc, hj⟩ | ⟨e, hcc, hj⟩ | ⟨a, b, hcc, hj⟩ | ⟨a, hcc⟩
       · simp only [hcc, hj, jbind_ok, bind_ok, jtry_ok]; exact StepRel.ok
       · simp only [hcc, hj, jbind_error, bind_ok, jtry_iae, withErr_null]; exact StepRel.ok_eq (by norm_num)
@@ -853,7 +849,7 @@ theorem java_eq_c_CS_FluorShell_Kissel_no_Cascade (hk : KAllOk T Z)
     simp only [↓reduceIte, Int.reduceEq]
     jeq_use_pos (java_eq_c_FluorYield T Z 0 hZ (by decide) s hs), (java_pos_FluorYield T Z hZ 0 (by decide))
     jeq_simp
-    jeq_use (java_eq_c_CS_Photo_Partial T Z 0 hZ (by decide) E s hs (hk.vec 0 (by decide) (by decide)).1 (hk.vec 0 (by decide) (by decide)).2.1 (hk.vec 0 (by decide) (by decide)).2.2 (Or.inl (by decide)))
+    jeq_use (java_eq_c_CS_Photo_Partial T Z 0 hZ (by decide) E s hs (hk.vec 0 (by decide) (by decide)).1 (hk.vec 0 (by decide) (by decide)).2.1 (hk.vec 0 (by decide) (by decide)).2.2)
     jeq_auto
   by_cases h1 : m = 1
   · subst h1
